@@ -4,6 +4,15 @@
 // name lookup play their contracts with symbolic outcomes.  Bounded by the rule-list length (MAX), complete over
 // every position of an init failure / unknown target / deny rule.
 #![allow(dead_code, unused_variables, unused_macros, static_mut_refs, unused_imports, unused_mut)]
+// `tracing::level!(..)` written with its path by an edit keeps compiling (log statements have no effect on the checks)
+pub mod tracing {
+    macro_rules! trace { ($($t:tt)*) => { () } }
+    macro_rules! debug { ($($t:tt)*) => { () } }
+    macro_rules! info { ($($t:tt)*) => { () } }
+    macro_rules! warn_ { ($($t:tt)*) => { () } }
+    macro_rules! error { ($($t:tt)*) => { () } }
+    pub(crate) use {trace, debug, info, warn_ as warn, error};
+}
 
 macro_rules! format { ($($t:tt)*) => { Msg } }
 pub const MAX: usize = 3;
